@@ -34,13 +34,13 @@ EMITTERS = ["pytato.target.loopy.codegen", "pytato.codegen",
 def r_unordered(c):
     m = c.model
     mods = [x for x in ARTEFACT_MODULES if x in m.modules]
-    if len(mods) < 20:
+    if len(mods) < 14:
         raise AnalysisError(f"only {len(mods)} artefact modules found")
     sites = scan(m, mods)
     c.units["iteration_sites_over_unordered_values"] = len(sites)
-    if len(sites) < 30:
+    if len(sites) < 21:
         raise AnalysisError(f"only {len(sites)} iteration sites over unordered "
-                            "values found (floor 30): type inference broken")
+                            "values found (floor 21): type inference broken")
     rv = Reviewed()
     for s in sites:
         where = m.loc(m.module_of(s.node), s.node)
@@ -100,7 +100,7 @@ def r_emitter_dict_order(c):
             "the side-effecting code-generation mapper is applied to the outputs in "
             "the order the dictionary was filled (set order for distributed parts): "
             "generated names depend on the hash seed")
-    if n < 3:
+    if n < 2:
         raise AnalysisError(f"only {n} DictOfNamedArrays iterations in emitters")
 
 
@@ -175,7 +175,7 @@ def r_identity_order(c):
                                 "between processes")
     c.ok("R17-IDENTITY-ORDER", "scope", f"{n_sort} sort/min/max calls inspected",
          "", nontrivial=False)
-    if n_sort < 20:
+    if n_sort < 14:
         raise AnalysisError(f"only {n_sort} sort calls inspected")
 
 
@@ -224,7 +224,7 @@ SPEC = Spec(
     prop="C17",
     rules=[r_unordered, r_emitter_dict_order, r_topo_key, r_identity_order,
            r_tag_numbering, r_state],
-    floors={"R17-UNORDERED": 30, "R17-DICT-ORDER": 3, "R17-TOPO-KEY": 1,
+    floors={"R17-UNORDERED": 27, "R17-DICT-ORDER": 3, "R17-TOPO-KEY": 1,
             "R17-TAG-NUMBERING": 1, "R17-STATE": 25},
     explanation=(
         "R17-UNORDERED: local type inference finds every iteration (for loops, "
